@@ -430,8 +430,14 @@ func (p *postHandshake) processPostHandshakeMessages(ctx context.Context, conn C
 
 			return err
 		}
+		recvSequenceBefore := p.state.HandshakeRecvSequence
 		if err := p.handlePostHandshakeMessage(ctx, conn, message, item.Epoch); err != nil {
 			return err
+		}
+		if p.state.HandshakeRecvSequence == recvSequenceBefore {
+			// The message was refused with a fatal alert and not consumed. Stop
+			// here instead of pulling and refusing the same message forever.
+			return dtlserrors.ErrUnexpectedHandshakeMessage
 		}
 	}
 
